@@ -5,18 +5,27 @@ Driver handlers for C08.
 
 `GRAPH <n> <prog_0> … <prog_{n-1}> <schedule>`  — replay one linearisation (schedule = thread id per atomic
 step, digits) of `n` thread programs on the model of the shared pipeline graph (`IB.Graph.run`, the very
-function the theorems of `Props/C08.lean` are about) and answer with the lock-site trace, the final graph
-and every operation's outcome:
+function the theorems of `Props/C08.lean` are about) and answer with the lock-site trace, the final graph,
+the number of user-function calls implied by the threads' traces of user-code runs (`Thread.calls`) and every
+operation's outcome:
 
-`n=<nextId> N=<id>:<S|T|G>,… E=<from>-<to>,… T=(<tid><site><#nodes>.<#edges> after the step)… t0=<outcomes> t1=… `
+`n=<nextId> N=<id>:<S|T|K|V|A|G>,… E=<from>-<to>,… T=(<tid><site><#nodes>.<#edges> after the step)… U=<calls> t0=<outcomes> t1=… `
 
 program = ops joined by `;` (`-` = empty):
   `S<rows>`            from_vec of `(k,v)` rows (`k.v` joined by `_`)
-  `D<ref>/<fn>`        map/filter on an existing collection; fn ∈ `a<n>` v+n | `m<n>` v*n | `k<m>` k:=(k+v) mod m | `f<m>.<r>` keep v mod m ≠ r
-  `J<ref>/<ref>`       join_inner of two existing `(k,v)` collections
+  `D<ref>/<fn>`        map/filter on an existing collection of any element type; fn ∈ `a<n>` v+n | `m<n>` v*n |
+                       `k<m>` k:=(k+pv) mod m | `f<m>.<r>` keep pv mod m ≠ r   (pv = the value, or the sum of a group)
+  `G<ref>`             group_by_key of a `(k,v)` collection
+  `V<ref>/<bias>`      combine_values(sum+bias) of a `(k,v)` collection
+  `L<ref>/<bias>`      combine_values_lifted(sum+bias) of a grouped collection
+  `A<ref>/<bias>/<fanout|n>`  combine_globally((Σk mod 2, Σv+bias), fanout) of a `(k,v)` collection
+  `J<i|l|r|f><ref>/<ref>`  join_inner / _left / _right / _full of two existing `(k,v)` collections
   `C<ref>/<mode>`      collect (mode `s` | `p<parts>`; the model's answer does not depend on it)
+  `M+` / `M-`          set_metrics / take_metrics
 ref = `f<k>` pool[k mod len] | `b<k>` pool from the back | `m<k>` own results from the back (else pool)
-outcome = `B<id>` built | `C<id>:<sorted rows>` collected | `K` skipped | `P` panicked | `C<id>:ERR…`
+outcome = `B<id>` built | `C<id>:<sorted rows>` collected | `K` skipped | `P` panicked | `C<id>:ERR…` |
+          `M` metrics set | `M1`/`M0` take_metrics returned Some/None
+row = `k.v` | `k.v.w` (join; `n` = None) | `k.g<v1>+<v2>…` (group, values sorted)
 
 `GINV <nextId> <ids> <edges>` — evaluates the decidable graph invariant on a snapshot taken from the REAL
 pipeline after a free-running multi-threaded build (answer `T`/`F`).
@@ -27,96 +36,137 @@ open IB.Wire IB.Graph
 inductive Fn where
   | add (n : Int) | mul (n : Int) | rekey (m : Nat) | drop (m r : Nat)
 
+inductive Cell where
+  | absent | null | val (i : Int) | list (l : List Int)
+
 structure Row where
   k : Int
-  v : Int
-  w : Option Int
+  v : Cell
+  w : Cell
 
 /-- a node inside a join's captured sub-chain (a nested `CoGroup` is only a marker: the engine bails) -/
 inductive Flat where
-  | src (rows : List Row) | op (f : Fn) | dummy | cog
+  | src (rows : List Row) | op (f : Fn) | dummy | gbk | cv (b : Int) | cvl (b : Int) | cg (b : Int) | cog
 
 /-- node payload of the driver's instance of the graph model -/
 inductive ND where
-  | src (rows : List Row) | op (f : Fn) | dummy | cog (l r : List Flat)
+  | flat (n : Flat) | cog (tag : Nat) (l r : List Flat)
 
-def ND.flat : ND → Flat
-  | .src rows => .src rows
-  | .op f => .op f
-  | .dummy => .dummy
-  | .cog _ _ => .cog
+def ND.toFlat : ND → Flat
+  | .flat n => n
+  | .cog _ _ _ => .cog
 
-def kit : Kit ND := ⟨.dummy, fun l r => .cog (l.map ND.flat) (r.map ND.flat)⟩
+def kit : Kit ND := ⟨.flat .dummy, fun tag l r => .cog tag (l.map ND.toFlat) (r.map ND.toFlat)⟩
+
+def Cell.pv : Cell → Int
+  | .val i => i
+  | .list l => l.sum
+  | _ => 0
+
+def Cell.mapv (g : Int → Int) : Cell → Cell
+  | .val i => .val (g i)
+  | .list l => .list (l.map g)
+  | c => c
 
 def applyFn (f : Fn) (rows : List Row) : List Row :=
   match f with
-  | .add n => rows.map (fun r => { r with v := r.v + n })
-  | .mul n => rows.map (fun r => { r with v := r.v * n })
-  | .rekey m => rows.map (fun r => { r with k := (r.k + r.v) % (Int.ofNat m) })
-  | .drop m r => rows.filter (fun x => x.v % (Int.ofNat m) != Int.ofNat r)
+  | .add n => rows.map (fun r => { r with v := r.v.mapv (· + n) })
+  | .mul n => rows.map (fun r => { r with v := r.v.mapv (· * n) })
+  | .rekey m => rows.map (fun r => { r with k := (r.k + r.v.pv) % (Int.ofNat m) })
+  | .drop m r => rows.filter (fun x => x.v.pv % (Int.ofNat m) != Int.ofNat r)
+
+def keysOf (rows : List Row) : List Int := (rows.map (·.k)).eraseDups
+
+def Cell.vals : Cell → List Int
+  | .val i => [i]
+  | .list l => l
+  | _ => []
+
+/-- `group_by_key` -/
+def groupRows (rows : List Row) : List Row :=
+  (keysOf rows).map (fun k => { k := k, v := .list ((rows.filter (·.k == k)).flatMap (·.v.vals)), w := .absent })
+
+/-- `combine_values(sum+bias)` on pairs, `combine_values_lifted(sum+bias)` on groups (a repeated key's groups are merged) -/
+def combineRows (b : Int) (rows : List Row) : List Row :=
+  (keysOf rows).map (fun k => { k := k, v := .val (((rows.filter (·.k == k)).map (·.v.pv)).sum + b), w := .absent })
+
+/-- `combine_globally`: always exactly one row -/
+def globalRow (b : Int) (rows : List Row) : List Row :=
+  [{ k := ((rows.map (·.k)).sum) % 2, v := .val ((rows.map (·.v.pv)).sum + b), w := .absent }]
+
+/-- one node of a chain: new buffer and the number of user-function calls (closure / `add_input`) it made -/
+def stepFlat (acc : Except String (Option (List Row) × Nat)) (n : Flat) : Except String (Option (List Row) × Nat) :=
+  match acc with
+  | .error e => .error e
+  | .ok (cur, cnt) =>
+    match n, cur with
+    | .src rows, _ => .ok (some rows, cnt)
+    | .dummy, _ => .ok (some [], cnt)
+    | .cog, _ => .error "ERR-nested"
+    | _, none => .error "PANIC"
+    | .op f, some rows => .ok (some (applyFn f rows), cnt + rows.length)
+    | .gbk, some rows => .ok (some (groupRows rows), cnt)
+    | .cv b, some rows => .ok (some (combineRows b rows), cnt + rows.length)
+    | .cvl b, some rows => .ok (some (combineRows b rows), cnt + ((rows.map (·.v.vals.length)).sum))
+    | .cg b, some rows => .ok (some (globalRow b rows), cnt + rows.length)
 
 /-- `run_subplan_seq` on a captured chain -/
-def runSub (chain : List Flat) : Except String (List Row) :=
-  let step := fun (acc : Except String (Option (List Row))) (n : Flat) =>
-    match acc with
-    | .error e => .error e
-    | .ok cur =>
-      match n with
-      | .src rows => .ok (some rows)
-      | .dummy => .ok (some [])
-      | .op f => match cur with
-        | some rows => .ok (some (applyFn f rows))
-        | none => .error "PANIC"
-      | .cog => .error "ERR-nested"
-  match chain.foldl step (.ok none) with
+def runSub (chain : List Flat) : Except String (List Row × Nat) :=
+  match chain.foldl stepFlat (.ok (none, 0)) with
   | .error e => .error e
-  | .ok (some rows) => .ok rows
-  | .ok none => .error "PANIC"
+  | .ok (some rows, n) => .ok (rows, n)
+  | .ok (none, _) => .error "PANIC"
 
-def joinInner (l r : List Row) : List Row :=
-  l.flatMap (fun a => (r.filter (fun b => b.k == a.k)).map (fun b => { k := a.k, v := a.v, w := some b.v }))
+/-- the four `exec` closures of helpers/joins.rs -/
+def joinRows (tag : Nat) (l r : List Row) : List Row :=
+  let inner := l.flatMap (fun a => (r.filter (fun b => b.k == a.k)).map (fun b => { k := a.k, v := a.v, w := b.v }))
+  let lonly := (l.filter (fun a => !(r.any (fun b => b.k == a.k)))).map (fun a => { k := a.k, v := a.v, w := Cell.null })
+  let ronly := (r.filter (fun b => !(l.any (fun a => a.k == b.k)))).map (fun b => { k := b.k, v := Cell.null, w := b.v })
+  match tag with
+  | 0 => inner
+  | 1 => inner ++ lonly
+  | 2 => inner ++ ronly
+  | _ => inner ++ lonly ++ ronly
 
-/-- `exec_seq` on the chain a collect planned (the planner passes do not change what a chain of plain
-    `map`/`filter` steps computes; that is property C03's business) -/
-def exec (chain : List ND) : Except String (List Row) :=
-  let step := fun (acc : Except String (Option (List Row))) (n : ND) =>
-    match acc with
-    | .error e => .error e
-    | .ok cur =>
-      match n with
-      | .src rows => .ok (some rows)
-      | .dummy => .ok (some [])
-      | .op f => match cur with
-        | some rows => .ok (some (applyFn f rows))
-        | none => .error "PANIC"
-      | .cog l r =>
+/-- `exec_seq` on the chain a collect planned (the planner passes do not change what such a chain computes;
+    that is property C03's business): result rows and the number of user-function calls of the run -/
+def exec (chain : List ND) : Except String (List Row × Nat) :=
+  let step := fun (acc : Except String (Option (List Row) × Nat)) (n : ND) =>
+    match n with
+    | .flat f => stepFlat acc f
+    | .cog tag l r =>
+      match acc with
+      | .error e => .error e
+      | .ok (_, cnt) =>
         match runSub l, runSub r with
-        | .ok a, .ok b => .ok (some (joinInner a b))
+        | .ok a, .ok b => .ok (some (joinRows tag a.1 b.1), cnt + a.2 + b.2)
         | .error e, _ => .error e
         | _, .error e => .error e
-  match chain.foldl step (.ok none) with
+  match chain.foldl step (.ok (none, 0)) with
   | .error e => .error e
-  | .ok (some rows) => .ok rows
-  | .ok none => .error "ERR-empty"
+  | .ok (some rows, n) => .ok (rows, n)
+  | .ok (none, _) => .error "ERR-empty"
 
 /-! ### wire -/
 
-def rowLe (a b : Row) : Bool :=
-  let wa := a.w.getD 0
-  let wb := b.w.getD 0
-  a.k < b.k || (a.k == b.k && (a.v < b.v || (a.v == b.v && wa ≤ wb)))
+def showCell : Cell → String
+  | .absent => ""
+  | .null => "n"
+  | .val i => s!"{i}"
+  | .list l => "g" ++ "+".intercalate ((l.mergeSort (fun a b => decide (a ≤ b))).map (fun i => s!"{i}"))
 
 def showRow (r : Row) : String :=
   match r.w with
-  | none => s!"{r.k}.{r.v}"
-  | some w => s!"{r.k}.{r.v}.{w}"
+  | .absent => s!"{r.k}.{showCell r.v}"
+  | w => s!"{r.k}.{showCell r.v}.{showCell w}"
 
+/-- rows are compared as rendered strings (bytewise; total on distinct rows) -/
 def showRows (rows : List Row) : String :=
-  if rows.isEmpty then "-" else "_".intercalate ((rows.mergeSort rowLe).map showRow)
+  if rows.isEmpty then "-" else "_".intercalate ((rows.map showRow).mergeSort (fun a b => !decide (b < a)))
 
 def parseRow? (s : String) : Option Row :=
   match s.splitOn "." with
-  | [k, v] => do pure { k := (← parseInt? k), v := (← parseInt? v), w := none }
+  | [k, v] => do pure { k := (← parseInt? k), v := .val (← parseInt? v), w := .absent }
   | _ => none
 
 def parseRows? (s : String) : Option (List Row) :=
@@ -145,21 +195,43 @@ def parseFn? (s : String) : Option Fn :=
     | _ => none
   | _ => none
 
+def parseJoinTag? (c : Char) : Option Nat :=
+  match c with
+  | 'i' => some 0
+  | 'l' => some 1
+  | 'r' => some 2
+  | 'f' => some 3
+  | _ => none
+
 def parseOp? (s : String) : Option (Op ND) :=
   let body := (s.drop 1).toString
   match s.front with
-  | 'S' => (parseRows? body).map (fun rows => Op.source (.src rows))
+  | 'S' => (parseRows? body).map (fun rows => Op.source (.flat (.src rows)))
   | 'D' => match body.splitOn "/" with
-    | [r, f] => do pure (Op.derive (← parseRef? r) (.op (← parseFn? f)))
+    | [r, f] => do pure (Op.derive (← parseRef? r) none (.flat (.op (← parseFn? f))))
     | _ => none
-  | 'J' => match body.splitOn "/" with
-    | [l, r] => do pure (Op.join (← parseRef? l) (← parseRef? r))
+  | 'G' => do pure (Op.derive (← parseRef? body) (some (0, 2)) (.flat .gbk))
+  | 'V' => match body.splitOn "/" with
+    | [r, b] => do pure (Op.derive (← parseRef? r) (some (0, 0)) (.flat (.cv (← parseInt? b))))
+    | _ => none
+  | 'L' => match body.splitOn "/" with
+    | [r, b] => do pure (Op.derive (← parseRef? r) (some (2, 0)) (.flat (.cvl (← parseInt? b))))
+    | _ => none
+  | 'A' => match body.splitOn "/" with
+    | [r, b, fo] =>
+      if fo == "n" || (parseNat? fo).isSome then
+        do pure (Op.derive (← parseRef? r) (some (0, 0)) (.flat (.cg (← parseInt? b))))
+      else none
+    | _ => none
+  | 'J' => match (body.drop 1).toString.splitOn "/" with
+    | [l, r] => do pure (Op.join (← parseRef? l) (← parseRef? r) (← parseJoinTag? body.front))
     | _ => none
   | 'C' => match body.splitOn "/" with
     | [r, m] =>
       if m == "s" || (m.startsWith "p" && (parseNat? (m.drop 1).toString).isSome) then (parseRef? r).map Op.collect
       else none
     | _ => none
+  | 'M' => if body == "+" then some .setMetrics else if body == "-" then some .takeMetrics else none
   | _ => none
 
 def parseProg? (s : String) : Option (List (Op ND)) :=
@@ -177,6 +249,8 @@ def siteCode (s : String) : String :=
   | "snapshot" => "s"
   | "record_metrics_start" => "m"
   | "record_metrics_end" => "e"
+  | "set_metrics" => "M"
+  | "take_metrics" => "K"
   | _ => "x"
 
 /-- run the schedule, recording the site each step goes through -/
@@ -189,20 +263,33 @@ def runTraced (c : Cfg ND) (sched : List Nat) : Cfg ND × String :=
     (c', acc.2 ++ toString i ++ site ++ toString c'.g.nodes.length ++ "." ++ toString c'.g.edges.length)) (c, "")
 
 def kindOf : ND → String
-  | .src _ => "S"
-  | .dummy => "S"
-  | .op _ => "T"
-  | .cog _ _ => "G"
+  | .flat (.src _) => "S"
+  | .flat .dummy => "S"
+  | .flat (.op _) => "T"
+  | .flat .gbk => "K"
+  | .flat (.cv _) => "V"
+  | .flat (.cvl _) => "V"
+  | .flat (.cg _) => "A"
+  | .flat .cog => "G"
+  | .cog _ _ _ => "G"
 
 def showOutcome : Outcome ND → String
   | .built id => s!"B{id}"
   | .collected x none => s!"C{x}:ERR-missing-node"
   | .collected x (some ch) =>
     match exec ch with
-    | .ok rows => s!"C{x}:{showRows rows}"
+    | .ok r => s!"C{x}:{showRows r.1}"
     | .error e => s!"C{x}:{e}"
   | .skipped => "K"
   | .panicked => "P"
+  | .metricsSet => "M"
+  | .metricsTaken b => if b then "M1" else "M0"
+
+/-- user-function calls implied by the traces of user-code runs of all threads (`Cfg.calls`) -/
+def userCalls (c : Cfg ND) : Nat :=
+  (c.calls.map (fun ch => match exec ch with
+    | .ok r => r.2
+    | .error _ => 0)).sum
 
 def commaOrDash (l : List String) : String := if l.isEmpty then "-" else ",".intercalate l
 
@@ -210,7 +297,7 @@ def showCfg (c : Cfg ND) (trace : String) : String :=
   let ns := commaOrDash (c.g.nodes.map (fun p => s!"{p.1}:{kindOf p.2}"))
   let es := commaOrDash (c.g.edges.map (fun e => s!"{e.1}-{e.2}"))
   let outs := (c.threads.zipIdx).map (fun (th, i) => s!"t{i}={commaOrDash (th.outs.map showOutcome)}")
-  s!"n={c.g.nextId} N={ns} E={es} T={if trace.isEmpty then "-" else trace} " ++ " ".intercalate outs
+  s!"n={c.g.nextId} N={ns} E={es} T={if trace.isEmpty then "-" else trace} U={userCalls c} " ++ " ".intercalate outs
 
 def handleGraph : List String → String
   | nTok :: rest =>
